@@ -110,7 +110,10 @@ deriving DecidableEq, Repr
     exception of its own (a serialisation error part-way, an un-encodable character, user code raising) -/
 inductive BodyOp where
   | write (c : Bytes)
+  /-- the block raises between two file operations (serialiser error, user code) -/
   | fail (e : Exc)
+  /-- a `write` call that raises by itself without writing anything (`UnicodeEncodeError`) -/
+  | failingWrite (e : Exc)
 deriving DecidableEq, Repr
 
 /-- the facts about `staged_write_path` that T1 reads from the source -/
@@ -155,6 +158,11 @@ def writesOp (sched : Sched) (stg : α) : FS α → Nat → List BodyOp → List
     | .none => writesOp sched stg (fs.append stg c) (i + 1) r (tr ++ [.write])
     | .raise e p => closeOp sched (if p = 0 then fs else fs.append stg (c.take p)) (i + 1) (.raised e) (tr ++ [.write])
     | .die p => ⟨if p = 0 then fs else fs.append stg (c.take p), .died, i + 1, tr ++ [.write]⟩
+  | fs, i, .failingWrite e :: _, tr =>
+    match sched i with
+    | .none => closeOp sched fs (i + 1) (.raised e) (tr ++ [.write])
+    | .raise e' _ => closeOp sched fs (i + 1) (.raised e') (tr ++ [.write])
+    | .die _ => ⟨fs, .died, i + 1, tr ++ [.write]⟩
 
 /-- `with open(staging_path, mode, **kwargs) as outputfile: <ops>` — everything `staged_write` runs inside
     `staged_write_path`. -/
@@ -220,11 +228,13 @@ def payload : List BodyOp → Bytes
   | [] => []
   | .write c :: r => c ++ payload r
   | .fail _ :: r => payload r
+  | .failingWrite _ :: r => payload r
 
 def noFail : List BodyOp → Bool
   | [] => true
   | .write _ :: r => noFail r
   | .fail _ :: _ => false
+  | .failingWrite _ :: _ => false
 
 /-- the static operation list of DESIGN §3.7 for a block that writes `chunks` -/
 def writeOps (chunks : List Bytes) : List OpName :=
